@@ -46,6 +46,9 @@ type FedSpec struct {
 	SDLs       map[string]string `json:"sdls"`
 	Order      []string          `json:"order"`
 	Priorities []string          `json:"priorities,omitempty"`
+	// PrioritiesFirst: hand WithLocationPriorities to gateway.New before WithPlanner (the order in which a gateway is
+	// given its options is the caller's business and must not matter)
+	PrioritiesFirst bool `json:"priorities_option_first,omitempty"`
 	// Owners[type.field] = services declaring it (bookkeeping for oracles)
 	Owners map[string][]string `json:"owners"`
 	// Parsed, when set, holds already parsed service schemas to hand to gateway.New instead of parsing the SDL again
